@@ -2,7 +2,8 @@
 import random
 
 CONTEXTS = ["stmt", "arg", "decorator", "default", "comprehension", "lambda", "multiline",
-            "nested", "assign", "method_chain", "await_like", "class_body", "kwvalue", "subscript"]
+            "nested", "assign", "method_chain", "await_like", "class_body", "kwvalue", "subscript",
+            "samename_method", "samename_inner_def"]
 
 
 def spellings(q):
@@ -77,6 +78,15 @@ def in_context(ctx, call, pre_lines):
         body = ["print(key=%s)" % call]; off = 0
     elif ctx == "subscript":
         body = ["zz_d[%s] = 1" % call]; off = 0
+    elif ctx == "samename_method":
+        # a method that happens to carry the local name of the callee does not rebind the module-level name
+        import re as _re
+        nm = _re.match(r"[A-Za-z_][A-Za-z_0-9]*", call).group(0)
+        body = ["class ZzW:", "    def %s(self, zz_v):" % nm, "        return zz_v", "zz_r = %s" % call]; off = 3
+    elif ctx == "samename_inner_def":
+        import re as _re
+        nm = _re.match(r"[A-Za-z_][A-Za-z_0-9]*", call).group(0)
+        body = ["def zz_outer():", "    def %s(zz_v):" % nm, "        return zz_v", "    return 1", "zz_r = %s" % call]; off = 4
     else:
         raise ValueError(ctx)
     src = "\n".join(pre + body) + "\n"
